@@ -190,6 +190,16 @@ def generate(rng, tier):
     # wrong-type response consuming a live request
     for _ in range(40 if thorough else 12):
         yield from history(rng, 'wrongtype', rand_msgs(rng, 2), wrongtype=True)
+    # one outcome also when correlator operations interleave: while the time-out notification of one overdue request is
+    # suspended in the application's hook, another task's operation runs (a sweep, the late response for this or for another
+    # overdue request); random schedules of several operations suspended in the hook at once (turn-level model, op c.sched)
+    from corr import c14
+    for ttl in (1024, 15 * 1024):
+        for k in (1, 2, 3):
+            for what in ('self', 'other', 'unknown', 'sweep'):
+                yield from c14.interleaved_history(ttl, k, what, 1)
+    for _ in range(120 if thorough else 30):
+        yield from c14.sched_history(rng, rng.choice((1024, 15 * 1024)))
     # session level: the real ESME.start() with a scripted SMSC, suspending hooks, back-pressure, dropped connections
     # (no model line; judged by the ledger predicate: exactly one outcome per queued message, every response attributed)
     from corr import c01s
@@ -198,6 +208,11 @@ def generate(rng, tier):
 
 def replay(inp):
     import random
+    if inp.get('op') == 'interleaved':
+        from corr import c14
+        return c14.interleaved_history(inp['ttl'], inp['k'], inp['what'], inp['which'])[-1]
+    if inp.get('op') == 'sched':
+        return Case('\n'.join(['c.new %d 102400' % inp['ttl']] + inp.get('lines', [])), '', None, None, inp)
     if inp.get('op') == 'session':
         from corr import c01s
         return c01s.case_of(dict(inp['sc']))
